@@ -139,14 +139,16 @@ def splitDots : Bytes → List Bytes
     | [] => [[b]]            -- unreachable
     | p :: ps => if b = 46 then [] :: p :: ps else (b :: p) :: ps
 
+/-- one step of `strconv.ParseUint`: a non-digit byte makes the parse fail for good -/
+def digitStep (acc : Option Nat) (b : UInt8) : Option Nat :=
+  match acc with
+  | none => none
+  | some a => if 48 ≤ b ∧ b ≤ 57 then some (a * 10 + (b.toNat - 48)) else none
+
 /-- `strconv.ParseUint(s, 10, 64)`: non-empty, decimal digits only, value < 2^64. -/
 def parseUint (bs : Bytes) : Option Nat :=
   if bs.isEmpty then none else
-  let r := bs.foldl (fun (acc : Option Nat) (b : UInt8) =>
-    match acc with
-    | none => none
-    | some a => if 48 ≤ b ∧ b ≤ 57 then some (a * 10 + (b.toNat - 48)) else none) (some 0)
-  match r with
+  match bs.foldl digitStep (some 0) with
   | some v => if v < 2 ^ 64 then some v else none
   | none => none
 
